@@ -25,23 +25,28 @@ DO = 'Position__do_move'
 GHOST = 'SPos G_P0; uint32_t G_SQ; uint32_t G_PC; int G_I, G_J; int G_HI; uint32_t G_CLASS;\nstruct Position W_P; uint32_t W_m;\n'
 KEY = '(self->_zobrist_hash._piece_key ^ self->_zobrist_hash._pawn_key ^ self->_zobrist_hash._enpassant_key ^ self->_zobrist_hash._castling_key ^ self->_zobrist_hash._color_key)'
 
-C_DO = ('__CPROVER_requires(wf_pos(self) && sp_is(self, &G_P0) && sp_pseudo_legal(&G_P0, move) && G_SQ < 64 && G_PC >= 1 && G_PC <= 12)\n'
-        '__CPROVER_requires(self->_history_counter >= 1 && self->_history_counter < 800 && self->_half_move_counter <= 150 && self->_ply_counter >= 0 && self->_ply_counter < 100000)\n'
-        '__CPROVER_requires(G_HI >= 0 && G_HI < self->_history_counter)\n'
-        '__CPROVER_requires(spec_move_promo(move) == 0 || self->_piece_count[sp_piece(self->_current_side, spec_move_promo(move))] < 10)\n'
-        '__CPROVER_requires(move_class(&G_P0, move) == G_CLASS)\n'
-        '__CPROVER_assigns(__CPROVER_object_whole(self))\n'
-        '__CPROVER_ensures(self->_board[G_SQ] == sp_after_piece(&G_P0, move, G_SQ))\n'
-        '__CPROVER_ensures(self->_current_side == 1 - G_P0.side)\n'
-        '__CPROVER_ensures(self->_castling_rights == sp_after_rights(&G_P0, move))\n'
-        '__CPROVER_ensures(self->_enpassant_square == sp_after_ep(&G_P0, move))\n'
-        '__CPROVER_ensures(self->_half_move_counter == sp_after_half(&G_P0, move))\n'
-        '__CPROVER_ensures(self->_ply_counter == G_P0.ply + 1)\n'
-        '__CPROVER_ensures(wf_board_at(self, G_SQ) && wf_row_at(self, G_PC, G_SQ, G_I, G_J))\n'
-        '__CPROVER_ensures(wf_state(self))\n'
-        '__CPROVER_ensures(self->_history_counter == __CPROVER_old(self->_history_counter) + 1 && self->_history[self->_history_counter - 1] == %s)\n' % KEY +
-        '__CPROVER_ensures(self->_history[G_HI] == __CPROVER_old(self->_history[G_HI]))\n'
-        '__CPROVER_ensures(__CPROVER_return_value == spec_mi_pack(sp_captured_kind(&G_P0, move), G_P0.rights, G_P0.ep, sp_is_ep(&G_P0, move), G_P0.half))\n')
+PRE_DO = ('__CPROVER_requires(wf_pos(self) && sp_is(self, &G_P0) && sp_pseudo_legal(&G_P0, move) && G_SQ < 64 && G_PC >= 1 && G_PC <= 12)\n'
+          '__CPROVER_requires(self->_history_counter >= 1 && self->_history_counter < 800 && self->_half_move_counter <= 150 && self->_ply_counter >= 0 && self->_ply_counter < 100000)\n'
+          '__CPROVER_requires(G_HI >= 0 && G_HI < self->_history_counter)\n'
+          '__CPROVER_requires(spec_move_promo(move) == 0 || self->_piece_count[sp_piece(self->_current_side, spec_move_promo(move))] < 10)\n'
+          '__CPROVER_requires(move_class(&G_P0, move) == G_CLASS)\n'
+          '__CPROVER_assigns(__CPROVER_object_whole(self))\n')
+# the postcondition is checked in parts (one SAT query each, formula sliced to the part): same precondition, same function body
+PARTS = {
+    'state': ('__CPROVER_ensures(self->_current_side == 1 - G_P0.side)\n'
+              '__CPROVER_ensures(self->_castling_rights == sp_after_rights(&G_P0, move))\n'
+              '__CPROVER_ensures(self->_enpassant_square == sp_after_ep(&G_P0, move))\n'
+              '__CPROVER_ensures(self->_half_move_counter == sp_after_half(&G_P0, move))\n'
+              '__CPROVER_ensures(self->_ply_counter == G_P0.ply + 1)\n'
+              '__CPROVER_ensures(__CPROVER_return_value == spec_mi_pack(sp_captured_kind(&G_P0, move), G_P0.rights, G_P0.ep, sp_is_ep(&G_P0, move), G_P0.half))\n'),
+    'board': '__CPROVER_ensures(self->_board[G_SQ] == sp_after_piece(&G_P0, move, G_SQ))\n',
+    'bitboards': '__CPROVER_ensures(wf_board_at(self, G_SQ))\n',
+    'lists': '__CPROVER_ensures(wf_row_at(self, G_PC, G_SQ, G_I, G_J))\n',
+    'wf_state': '__CPROVER_ensures(wf_state(self))\n',
+    'history': ('__CPROVER_ensures(self->_history_counter == __CPROVER_old(self->_history_counter) + 1 && self->_history[self->_history_counter - 1] == %s)\n' % KEY +
+                '__CPROVER_ensures(self->_history[G_HI] == __CPROVER_old(self->_history[G_HI]))\n'),
+}
+C_DO = PRE_DO + ''.join(PARTS.values())
 
 CLASSES = ['castling', 'enpassant', 'promotion', 'capture', 'quiet']
 MOVE_CLASS = '''
@@ -74,15 +79,17 @@ REPLAY_DO = {'needs': ['W_m'], 'body': '''
 def do_move_jobs():
     out = []
     for ci, cname in enumerate(CLASSES):
-        h = ND + ('void h_do(void) { struct Position P = nondet_Position(); uint32_t m = nondet_u32();\n'
-                  '  G_SQ = nondet_u32(); G_PC = nondet_u32(); G_I = nondet_int(); G_J = nondet_int(); G_HI = nondet_int(); G_CLASS = %d; sp_of(&P, &G_P0); W_P = P; W_m = m;\n'
-                  '  %s(&P, m);' % (ci, DO) + CANARY + '}\n')
-        out.append(Job('do_move/' + cname, PTUS, [DO], h, 'h_do', contracts={DO: C_DO},
-                       enforce=DO, spec=SPEC, post_spec=POST, pre_text=GHOST + MOVE_CLASS, timeout=2400,
-                       unwindset=loops_unwind([('Position__remove_piece', 11), ('Position__move_piece', 11)]),
-                       route='closed-by-complete-unwinding(11): piece lists have 10 slots; the three piece mutators are inlined (dfcc call replacement havocs byte slices of the 7.5 KB Position object and cost 5-10 M variables per query)',
-                       replay=REPLAY_DO,
-                       note='do_move == rules of chess, field by field (ghost square), move class: ' + cname))
+        for part, ens in PARTS.items():
+            h = ND + ('void h_do(void) { struct Position P = nondet_Position(); uint32_t m = nondet_u32();\n'
+                      '  G_SQ = nondet_u32(); G_PC = nondet_u32(); G_I = nondet_int(); G_J = nondet_int(); G_HI = nondet_int(); G_CLASS = %d; sp_of(&P, &G_P0); W_P = P; W_m = m;\n'
+                      '  %s(&P, m);' % (ci, DO) + CANARY + '}\n')
+            out.append(Job('do_move/%s/%s' % (cname, part), PTUS, [DO], h, 'h_do', contracts={DO: PRE_DO + ens},
+                           enforce=DO, spec=SPEC, post_spec=POST, pre_text=GHOST + MOVE_CLASS, timeout=2400, flags=['--slice-formula'],
+                           unwindset=loops_unwind([('Position__remove_piece', 11), ('Position__move_piece', 11)]),
+                           canary=(part == 'state'),
+                           route='closed-by-complete-unwinding(11): piece lists have 10 slots; the three piece mutators are inlined (dfcc call replacement havocs byte slices of the 7.5 KB Position object and cost 5-10 M variables per query)',
+                           replay=REPLAY_DO,
+                           note='do_move == rules of chess; move class: %s; part of the postcondition: %s' % (cname, part)))
     return out
 
 
